@@ -202,8 +202,65 @@ def run(ck):
                           "variables: {t: [%s.0, %s.0]} produced %d elements instead of 2" % (a, b, n_steps),
                           {"nodes": [pg.node_impl_repr(n) for n in nodes], "descriptors": nodes, "data0": None, "ctx0": {},
                            "implementation": ["steps", n_steps]})
+    # direct oracle (3): the TYPE of a computed parameter.  The model's numbers are untyped integers, so that an expression
+    # value reaches the wrapped processor as computed (int stays int, bool stays bool, str stays str) is checked directly:
+    # reference = Python's own evaluation of the expression text over the variable values (explicit sequences only:
+    # ranges are numpy arrays), in the documented step order.
+    n_or += typed_parameter_oracle(ck, rng, 40 if thorough else 12)
     ck.notes["direct_oracle_runs"] = n_or
     ck.cov["trusted_base"] = c01.TRUSTED
+
+
+TYPED_EXPRS = ["t", "int(t)", "t < 2", "t * 2", "t // 2", "abs(t)", "bool(t)", "str(t)", "float(t)", "max(t, s)", "min(t, s)",
+               "t and s", "t or s", "+t", "-t", "t == s", "int(t) + int(s)", "t if t > s else s", "round(t)", "t % 2", "t ** 2", "(t, s)"]
+TYPED_SEQS = [[1, 2, 3], [1.0, 2.5], [0, 1], [True, False], [3], [2, 2.0], [-1, 0, 4], [1.5, -2.0, 0.0]]
+
+
+def typed_parameter_oracle(ck, rng, n):
+    import itertools
+    from semantiva.context_processors import ContextType
+    from semantiva.pipeline import Payload, Pipeline
+    from harness.lib.components import VerifTypeTagProbe
+    fns = {"abs": abs, "min": min, "max": max, "round": round, "float": float, "int": int, "str": str, "bool": bool}
+    runs = 0
+    for trial in range(n):
+        tv, sv = rng.choice(TYPED_SEQS), rng.choice(TYPED_SEQS)
+        ep, eq = rng.choice(TYPED_EXPRS), rng.choice(TYPED_EXPRS + [None])
+        variables = {"t": list(tv), "s": list(sv)}
+        params = {"p": ep}
+        if eq is not None:
+            params["q"] = eq
+        cfg = [{"processor": "FloatValueDataSource", "parameters": {"value": 1.0}},
+               {"processor": VerifTypeTagProbe, "context_key": "tags",
+                "derive": {"parameter_sweep": {"parameters": dict(params), "variables": {k: list(v) for k, v in variables.items()},
+                                               "mode": "combinatorial"}}}]
+        want, ref_exc = [], None
+        try:
+            for svv, tvv in itertools.product(sv, tv):        # sorted names: s outer, t inner (rightmost fastest)
+                env = dict(fns, t=tvv, s=svv)
+                pv = eval(ep, {"__builtins__": {}}, env)
+                qv = eval(eq, {"__builtins__": {}}, env) if eq is not None else None
+                want.append("%s:%r|%s:%r" % (type(pv).__name__, pv, type(qv).__name__, qv))
+        except Exception as ex:  # noqa - the expression itself fails on these values (e.g. 0 ** -1): not a typed-parameter case
+            ref_exc = ex
+        if ref_exc is not None:
+            continue
+        runs += 1
+        replay = {"kind": "typed-parameters", "variables": variables, "parameters": params, "expected": want}
+        try:
+            res = Pipeline(cfg).process(Payload(None, ContextType({})))
+            got = res.context.get_value("tags")
+        except Exception as ex:  # noqa
+            ck.fail_input("C03:typed-parameter:sweep-fails-where-direct-application-succeeds",
+                          "sweep of a probe with p=%r q=%r over t=%r s=%r raised %s: %s" % (ep, eq, tv, sv, type(ex).__name__, str(ex)[:120]), replay)
+            continue
+        if list(got) != want:
+            first = next((i for i, (a, b) in enumerate(zip(list(got), want)) if a != b), None)
+            ck.fail_input("C03:typed-parameter:element-differs-from-direct-application",
+                          "step %s: the wrapped probe received %r, the expression values are %r (p=%r q=%r)" %
+                          (first, list(got)[first] if first is not None and first < len(list(got)) else list(got), want[first] if first is not None else want, ep, eq),
+                          dict(replay, got=list(got)))
+    return runs
 
 
 def _vars_of(e):
